@@ -30,7 +30,7 @@ def strategy(tier):
     return sched.sched_specs(quiet=True, adaptive=True, empty_ok=True,
                              all_quiet_ok=True,
                              precisions=(None, None, None, 1, 2, 5),
-                             state_cond=True)
+                             state_cond=True, deep=tier == 'thorough')
 
 
 def run_case(spec):
